@@ -270,6 +270,10 @@ func (Prop) Generate(seed uint64, tier string) *core.Plan {
 				body = append(body, plgen.Stmt{K: "use", Arg: g.callees[j], N: int64(r.Intn(3))})
 				g.callees = append(g.callees[:j], g.callees[j+1:]...)
 			}
+			if r.Intn(8) == 0 {
+				// the whole script sits in an else branch (loops reachable only through `else`)
+				body = []plgen.Stmt{{K: "if", Cond: "false", Body: []plgen.Stmt{{K: "inc", V: "v0"}}, Has: true, Else: body}}
+			}
 			w.Scripts["main.p"] = body
 			break
 		}
